@@ -48,11 +48,15 @@ type Cfg struct {
 	TSA        bool              `json:"tsa"`                // the statements list a tsa trust store
 	Identity   string            `json:"identity"`           // wildcard | pinned | other
 	Revocation string            `json:"revocation"`         // ok | revoked | unknown | error
+	// RevWiring: which of the revocation-related options the caller supplies; what is left out is the
+	// library's to default. "" = both validators, "codesigning-only", "timestamping-only",
+	// "client-only" (the deprecated client), "none"
+	RevWiring string `json:"revWiring,omitempty"`
 	VerifyTS   string            `json:"verifyTimestamp,omitempty"`
 }
 
 func (c Cfg) key() string {
-	return fmt.Sprintf("%s/%s%v/%s/%s/%s/%v/%s/%s/%s", c.Docs, c.Level, c.Override, c.BlobStmt, c.PM, c.Trust, c.TSA, c.Identity, c.Revocation, c.VerifyTS)
+	return fmt.Sprintf("%s/%s%v/%s/%s/%s/%v/%s/%s/%s/%s", c.Docs, c.Level, c.Override, c.BlobStmt, c.PM, c.Trust, c.TSA, c.Identity, c.Revocation, c.VerifyTS, c.RevWiring)
 }
 
 func defaultCfg(docs, level string) Cfg {
@@ -162,7 +166,17 @@ func build(r *runner, c Cfg) (v verifierAPI, err error) {
 	case "error":
 		rev.Err = errors.New("scripted revocation failure")
 	}
-	opts.RevocationCodeSigningValidator, opts.RevocationTimestampingValidator = rev, &mocks.Revocation{}
+	switch c.RevWiring {
+	case "codesigning-only":
+		opts.RevocationCodeSigningValidator = rev
+	case "timestamping-only":
+		opts.RevocationTimestampingValidator = &mocks.Revocation{}
+	case "client-only":
+		opts.RevocationClient = rev.Client()
+	case "none":
+	default:
+		opts.RevocationCodeSigningValidator, opts.RevocationTimestampingValidator = rev, &mocks.Revocation{}
+	}
 	if c.Docs == "oci" || c.Docs == "both" {
 		s, st, id := sv(c.Level)
 		opts.OCITrustPolicy = &trustpolicy.OCIDocument{Version: "1.0", TrustPolicies: []trustpolicy.OCITrustPolicy{{
@@ -467,6 +481,12 @@ func (c *Case) classes(res *callResult) []string {
 	}
 	if c.Cfg.Level == "skip" {
 		cl = append(cl, "skip-level:"+c.Entry)
+	}
+	if c.Cfg.RevWiring != "" {
+		cl = append(cl, "revocation-wiring="+c.Cfg.RevWiring)
+		if c.Cfg.TSA {
+			cl = append(cl, "revocation-wiring-partial+tsa-store")
+		}
 	}
 	d := defaultOpts("")
 	for _, kv := range [][3]string{{"ref", c.Opts.Ref, d.Ref}, {"policyName", c.Opts.PolicyName, d.PolicyName}, {"meta", c.Opts.Meta, d.Meta},
